@@ -668,6 +668,11 @@ func c01DistinctKeys(l *ssau.RangeLoop) (bool, string) {
 			return true, "the matcher's results (one per target index)"
 		case strings.HasSuffix(n, "TFIDFSearcher).Search"):
 			return true, "the re-ranker's results (one per command index)"
+		case n == "slices.Sorted" || n == "slices.Collect":
+			// the keys of a map, each once, as a slice
+			if inner, ok := call.Common().Args[0].(*ssa.Call); ok && ssau.CallName(inner) == "maps.Keys" {
+				return true, "the keys of a map collected into a slice"
+			}
 		}
 	}
 	// a slice collecting the keys of a map, one append of the key per iteration
